@@ -62,6 +62,59 @@ impl CubeM {
     pub fn real(&self) -> Cube {
         Cube::from_mask(self.pos, self.neg)
     }
+    /// The same cube obtained through one of several routes: `from_mask`, `from_vars`, the conjunction of two
+    /// parts of its literals, the `&`-fold of its literals, and (for a contradictory literal set) the conjunction
+    /// of a literal, its opposite and the rest — values that are *results of operations*, not constructor output.
+    pub fn real_via(&self, route: u64) -> Cube {
+        let lits: Vec<(usize, bool)> = (0..32usize)
+            .flat_map(|v| {
+                let mut l = Vec::new();
+                if (self.pos >> v) & 1 == 1 {
+                    l.push((v, true));
+                }
+                if (self.neg >> v) & 1 == 1 {
+                    l.push((v, false));
+                }
+                l
+            })
+            .collect();
+        let lit = |(v, p): (usize, bool)| if p { Cube::nth_var(v) } else { Cube::nth_var_inv(v) };
+        match route % 8 {
+            0..=2 => self.real(),
+            3 => {
+                let pv: Vec<usize> = lits.iter().filter(|l| l.1).map(|l| l.0).collect();
+                let nv: Vec<usize> = lits.iter().filter(|l| !l.1).map(|l| l.0).collect();
+                Cube::from_vars(&pv, &nv)
+            }
+            4 => {
+                // two parts, split by a mask taken from the route
+                let s = (route >> 8) as u32;
+                Cube::from_mask(self.pos & s, self.neg & s) & Cube::from_mask(self.pos & !s, self.neg & !s)
+            }
+            5 => {
+                let s = (route >> 8) as u32;
+                &Cube::from_mask(self.pos & s, self.neg & !s) & &Cube::from_mask(self.pos & !s, self.neg & s)
+            }
+            6 => {
+                // fold of the literals, starting somewhere in the list
+                let k = if lits.is_empty() { 0 } else { (route >> 8) as usize % lits.len() };
+                let mut c = Cube::one();
+                for i in 0..lits.len() {
+                    c = c & lit(lits[(i + k) % lits.len()]);
+                }
+                c
+            }
+            _ => {
+                let both = self.pos & self.neg;
+                if both == 0 {
+                    return self.real();
+                }
+                let v = both.trailing_zeros() as usize;
+                let bit = 1u32 << v;
+                (Cube::nth_var(v) & Cube::nth_var_inv(v)) & Cube::from_mask(self.pos & !bit, self.neg & !bit)
+            }
+        }
+    }
 }
 
 /// Model of an exclusive cube.
@@ -95,6 +148,24 @@ impl EcubeM {
     pub fn real(&self) -> Ecube {
         let vs: Vec<usize> = (0..32).filter(|v| (self.vars >> v) % 2 == 1).collect();
         Ecube::from_vars(&vs, self.xnor)
+    }
+    /// The same term as the result of operations: XOR of two parts of its variables (polarity on either part),
+    /// double complement, fold of its variables.
+    pub fn real_via(&self, route: u64) -> Ecube {
+        let s = (route >> 8) as u32;
+        let part = |vars: u32, xnor: bool| EcubeM { vars, xnor }.real();
+        match route % 6 {
+            0..=2 => self.real(),
+            3 => part(self.vars & s, self.xnor) ^ part(self.vars & !s, false),
+            4 => &part(self.vars & s, !self.xnor) ^ &part(self.vars & !s, true),
+            _ => {
+                let mut c = !Ecube::from_vars(&[], !self.xnor);
+                for v in (0..32).filter(|v| (self.vars >> v) % 2 == 1) {
+                    c = c ^ Ecube::nth_var(v);
+                }
+                !!c
+            }
+        }
     }
     pub fn set(&self, n: usize) -> Vec<bool> {
         (0..1u64 << n).map(|m| self.sat(m)).collect()
